@@ -151,3 +151,97 @@ mod neon;
     httparse_simd_neon_intrinsics,
 ))]
 pub use self::neon::*;
+
+// Verification hook (H1): direct access to every scanner backend that the cfg
+// lattice compiled. Compiled only with `--cfg httparse_verif`.
+#[cfg(httparse_verif)]
+#[allow(missing_docs, clippy::missing_safety_doc, clippy::undocumented_unsafe_blocks)]
+pub mod verif {
+    use crate::iter::Bytes;
+
+    pub fn dispatch_uri(b: &mut Bytes<'_>) {
+        super::match_uri_vectored(b)
+    }
+    pub fn dispatch_header_value(b: &mut Bytes<'_>) {
+        super::match_header_value_vectored(b)
+    }
+    pub fn dispatch_header_name(b: &mut Bytes<'_>) {
+        super::match_header_name_vectored(b)
+    }
+
+    pub fn swar_uri(b: &mut Bytes<'_>) {
+        super::swar::match_uri_vectored(b)
+    }
+    pub fn swar_header_value(b: &mut Bytes<'_>) {
+        super::swar::match_header_value_vectored(b)
+    }
+    pub fn swar_header_name(b: &mut Bytes<'_>) {
+        super::swar::match_header_name_vectored(b)
+    }
+    pub fn swar_uri_block(block: [u8; core::mem::size_of::<usize>()]) -> usize {
+        super::swar::verif_uri_block(block)
+    }
+    pub fn swar_header_value_block(block: [u8; core::mem::size_of::<usize>()]) -> usize {
+        super::swar::verif_header_value_block(block)
+    }
+
+    #[cfg(all(
+        httparse_simd,
+        not(httparse_simd_target_feature_avx2),
+        any(target_arch = "x86", target_arch = "x86_64"),
+    ))]
+    pub const HAS_SSE42: bool = true;
+    #[cfg(not(all(
+        httparse_simd,
+        not(httparse_simd_target_feature_avx2),
+        any(target_arch = "x86", target_arch = "x86_64"),
+    )))]
+    pub const HAS_SSE42: bool = false;
+
+    #[cfg(all(
+        httparse_simd,
+        not(httparse_simd_target_feature_avx2),
+        any(target_arch = "x86", target_arch = "x86_64"),
+    ))]
+    pub unsafe fn sse42_uri(b: &mut Bytes<'_>) {
+        super::sse42::match_uri_vectored(b)
+    }
+    #[cfg(all(
+        httparse_simd,
+        not(httparse_simd_target_feature_avx2),
+        any(target_arch = "x86", target_arch = "x86_64"),
+    ))]
+    pub unsafe fn sse42_header_value(b: &mut Bytes<'_>) {
+        super::sse42::match_header_value_vectored(b)
+    }
+
+    #[cfg(all(
+        httparse_simd,
+        any(httparse_simd_target_feature_avx2, not(httparse_simd_target_feature_sse42)),
+        any(target_arch = "x86", target_arch = "x86_64"),
+    ))]
+    pub const HAS_AVX2: bool = true;
+    #[cfg(not(all(
+        httparse_simd,
+        any(httparse_simd_target_feature_avx2, not(httparse_simd_target_feature_sse42)),
+        any(target_arch = "x86", target_arch = "x86_64"),
+    )))]
+    pub const HAS_AVX2: bool = false;
+
+    #[cfg(all(
+        httparse_simd,
+        any(httparse_simd_target_feature_avx2, not(httparse_simd_target_feature_sse42)),
+        any(target_arch = "x86", target_arch = "x86_64"),
+    ))]
+    pub unsafe fn avx2_uri(b: &mut Bytes<'_>) {
+        super::avx2::match_uri_vectored(b)
+    }
+    #[cfg(all(
+        httparse_simd,
+        any(httparse_simd_target_feature_avx2, not(httparse_simd_target_feature_sse42)),
+        any(target_arch = "x86", target_arch = "x86_64"),
+    ))]
+    pub unsafe fn avx2_header_value(b: &mut Bytes<'_>) {
+        super::avx2::match_header_value_vectored(b)
+    }
+}
